@@ -242,6 +242,9 @@ def judge_run(ctx, d, label):
         elif v == "outoffuel":
             real_mism.append((label + ":" + h, "outoffuel", "excluded by theorem check_fuel_sufficient", None))
     stats["verdicts"] = verdicts
+    if not meta.get("settled") and meta.get("ops_recorded"):
+        ctx.notes.append("run %s: the cluster did not settle within its budget after the load: client histories judged, "
+                         "final replica reads / dump comparison / log comparison skipped (inconclusive for those)" % label)
     # (c) replica dumps equal
     dumps = meta.get("dumps") or []
     if meta.get("settled"):
@@ -333,7 +336,8 @@ def run(ctx):
             log("replay file has neither a history nor sequential cases (kind=%s): re-running the check" % rp.get("kind"))
         plan = []
     elif quick:
-        plan = [("q1", ctx.seed, "inproc", "mem", 20, 6, 40)]
+        plan = [("q1", ctx.seed, "inproc", "mem", 12, 6, 30),
+                ("q2", ctx.seed + 7000, "procs", "pebble", 14, 6, 10)]
     else:
         s = ctx.seed * 1000
         plan = [("t1", s + 1, "inproc", "mem", 60, 8, 80),
@@ -416,7 +420,7 @@ def run(ctx):
         distinct_nontrivial=len(distinct),
         rule="one harness run = real 3-replica namespace (static seed nodes) + N concurrent redis clients on 3 live keys "
              "(each key retired after 24-40 operations or 4 unknown outcomes) + seeded nemesis (graceful stop/restart, leader transfer; "
-             "thorough: three OS processes, kill -9 / respawn); a history = all operations on one key incl. the final read of every "
+             "with three OS processes also kill -9 / respawn and SIGSTOP / SIGCONT pauses); a history = all operations on one key incl. the final read of every "
              "replica's store. Non-trivial = at least 8 operations and at least one pair overlapping in real time; distinct by hash. "
              "Sequential cases = single-client operation lists diffed against Lin/Spec.v.",
         histogram=histo,
